@@ -23,7 +23,7 @@ COMMON_ASSUME = [
 
 prop("C10", True,
      "property-based testing (rapid): generated Parser event streams vs. a reference tree builder + Cursor-contract invariants; child process under a stack cap for the depth-bounded-stack clause",
-     "Generated search: contract-conforming event streams (nesting, prefix rebinding and override, surplus end events, parser errors) are replayed through a scripted parser.Parser into store.CreateInMemory; the resulting tree is walked in parallel with the harness's own model of the stream (structure, values, in-scope namespace sets per element) and the Cursor contract is asserted over a full traversal (Pos unique/increasing in document order, Parent() of every listed cursor, namespace cursors owned per element). Large flat streams are built in a child process whose goroutine stack is capped.",
+     "Generated search: contract-conforming event streams (nesting, prefix rebinding and override, surplus end events, parser errors) are replayed through a scripted parser.Parser into store.CreateInMemory; the resulting tree is walked in parallel with the harness's own model of the stream (structure, values, in-scope namespace sets per element; occasionally one element with 33-40 children, 3-15 attributes or 5-13 further namespace declarations next to a default namespace and its undeclaration) and the Cursor contract is asserted over a full traversal (Pos unique/increasing in document order, Parent() of every listed cursor, namespace cursors owned per element). Large flat streams are built in a child process whose goroutine stack is capped.",
      "Trusts the harness's event-stream model (xmodel.Build) as the meaning of the documented Parser contract; the stack clause is decided for the stated (events, depth) grid only.",
      "5.10",
      "cases = rapid-generated event streams (documents of depth <= 5 with namespaces, attributes, comments, PIs, adjacent text, forests; optional surplus top-level end events; optional parser error at a drawn position). Non-trivial = the stream has an inherited prefix overridden further down, or a surplus end event, or >= 3 levels of nesting; distinct by the full event list.",
@@ -35,10 +35,10 @@ EVAL_NOTE = ("Trusts the harness's reference evaluator xref (XPath 1.0 sections 
 
 prop("C01", True,
      "property-based testing (rapid): differential against a reference XPath evaluator over generated documents x every context node x all 13 axes, plus implementation-only partition/duality/root laws",
-     "Generated search: for generated documents (all node kinds, namespaces, top-level comments/PIs/text, forests) every node of every kind is used as context node for steps over all 13 axes and node tests (abbreviated and unabbreviated), multi-step paths and absolute paths inside predicates/arguments; the selected node-set is compared node by node with the reference evaluator. Independently of the reference, the partition law (ancestor/descendant/following/preceding/self), the duality of axis pairs and the root laws are checked on the implementation alone.",
+     "Generated search: for generated documents (all node kinds, namespaces, top-level comments/PIs/text, forests) every node of every kind is used as context node for steps over all 13 axes and node tests (abbreviated and unabbreviated), multi-step paths, absolute paths inside predicates/arguments and guided walks (each step chosen among drawn candidates so that it selects something; started from the root, an inner node, a mixed-kind node-set variable holding elements next to their own attribute and namespace nodes, or a parenthesised union; '..' after attribute and namespace steps); the selected node-set is compared node by node with the reference evaluator. Independently of the reference, the partition law (ancestor/descendant/following/preceding/self), the duality of axis pairs and the root laws are checked on the implementation alone.",
      EVAL_NOTE + " Name tests on the namespace axis and absolute paths in queries started at an inner cursor are outside the property and never judged.",
      "5.1",
-     "cases = (generated document, context node, axis::test step) and multi-step / absolute-in-predicate paths from the root. Non-trivial = expected node-set non-empty or context node not an element (steps), expected result non-empty (paths), documents with >= 4 tree nodes (laws); distinct by (document size, context kind and position shape, axis, test kind) resp. by (expression, document).")
+     "cases = (generated document, context node, axis::test step) and multi-step / absolute-in-predicate paths from the root and guided walks. Non-trivial = expected node-set non-empty or context node not an element (steps), expected result non-empty (paths), documents with >= 4 tree nodes (laws); distinct by (document size, context kind and position shape, axis, test kind) resp. by (expression, document).")
 prop("C02", True,
      "property-based testing (rapid): differential against the reference evaluator for predicate-bearing paths and filter expressions, plus metamorphic identities on the implementation",
      "Generated search: paths whose steps carry 1-3 predicates (positional, fractional, last()-based, boolean, node-set, string, nested) over forward and reverse axes after steps that select several context nodes, and filter expressions (E)[p], $v[p], f()[p] with continued paths, compared with the reference (per-context-node evaluation, proximity positions, true context size, document-order numbering of filter expressions). Metamorphic identities on the implementation alone: P[n] = P[position()=n], P[last()] = P[position()=last()], P[n.5] = empty, (E)[1] = document-first node, per-parent counts of //x[position() <= k].",
@@ -46,7 +46,7 @@ prop("C02", True,
      "cases = (document, predicate-bearing path or filter expression, bindings). Non-trivial = a predicate saw >= 2 candidates after a step with >= 2 context nodes, or sits on a reverse axis, or its numeric value is non-integral/NaN, or a path continues after a filter expression; distinct by (expression text, document).")
 prop("C03", True,
      "property-based testing (rapid): validity predicate on returned node-set slices + union algebra between separately executed queries",
-     "Generated search: overlapping and direction-mixing node-set expressions (//x/.., ancestor::*/@*, reverse axis feeding forward/attribute/namespace steps, unions) from drawn context nodes; every returned slice is checked to contain only nodes of the queried document, no node twice, strictly monotone document order (ascending without reverse axis and for unions); A|B = B|A, (A|B)|C = A|(B|C), A|A = A and count(A|B) = count(A)+count(B)-common are checked between separately executed queries. The slice predicate is additionally applied to every node-set any other check obtains.",
+     "Generated search: overlapping and direction-mixing node-set expressions (//x/.., ancestor::*/@*, reverse axis feeding forward/attribute/namespace steps, unions; guided walks with predicates from mixed-kind node-set variables and parenthesised unions) from drawn context nodes; every returned slice is checked to contain only nodes of the queried document, no node twice, strictly monotone document order (ascending without reverse axis and for unions); A|B = B|A, (A|B)|C = A|(B|C), A|A = A and count(A|B) = count(A)+count(B)-common are checked between separately executed queries. The slice predicate is additionally applied to every node-set any other check obtains.",
      "Node identity is the locator's structural bijection, not Pos(). Order among one element's attributes/namespace nodes follows the store's list order; caller-ordered variables are not required to come back sorted.",
      "5.3",
      "cases = (document, context node, three node-set expressions A, B, C). Non-trivial = operands overlap, or a step produced duplicate candidates, or a reverse axis feeds a further step; distinct by (A, B, C, context node, document).")
@@ -73,19 +73,19 @@ prop("C07", True,
      "cases = (function, argument values). Non-trivial = an argument has a multi-byte character, or the translate map overlaps/repeats/differs in length, or there are inner whitespace runs, or a bound is non-integral/NaN/infinite; distinct by (function, arguments).")
 prop("C08", True,
      "property-based testing (rapid) + native coverage-guided fuzzing (FuzzC08, thorough tier): typed ASTs rendered under five styles and evaluated against the AST's reference value; invalid-by-construction mutations must be rejected; arbitrary strings judged by an independent strict/lenient recogniser sandwich with reference evaluation of the strictly valid ones",
-     "Generated search: operator-heavy typed ASTs (all binary operators over operands of all types, same- and mixed-precedence chains, unary minus chains, unions, keyword-spelled names, names with '-', '.', digits) are rendered with minimal parentheses, redundant parentheses, arbitrary legal white space, abbreviated steps and all three combined; every rendering must compile and evaluate to the reference value of the AST on a generated document with distinguishable operands (so wrong precedence, associativity, token boundaries or dropped sub-expressions change the value). Token-level mutations that cannot yield an XPath expression (13 families: unbalanced brackets, dangling/leading/doubled operators, empty predicates/parentheses, junk suffixes, illegal characters, '$ name', bad axes, argument lists, numbers, unterminated literals) must make BuildExpr return an error. Token soup, damaged expressions and (thorough) coverage-guided fuzz inputs are judged by the harness's own recursive-descent parser in two modes: strictly valid => accepted, and evaluated to the parsed AST's reference value when the reference can evaluate it; accepted => leniently valid.",
+     "Generated search: operator-heavy typed ASTs (all binary operators over operands of all types, same- and mixed-precedence chains, unary minus chains, unions, keyword-spelled names, names with '-', '.', digits) are rendered with minimal parentheses, redundant parentheses, arbitrary legal white space, abbreviated steps and all three combined; every rendering must compile and evaluate to the reference value of the AST on a generated document with distinguishable operands (so wrong precedence, associativity, token boundaries or dropped sub-expressions change the value). Token-level mutations that cannot yield an XPath expression (15 families: unbalanced brackets, dangling/leading/doubled/stray operators, empty predicates/parentheses, junk suffixes, illegal characters, '$ name', bad axes, missing/doubled commas, a comma next to a parenthesis of an argument list, numbers, unterminated literals) must make BuildExpr return an error. Token soup, damaged expressions and (thorough) coverage-guided fuzz inputs are judged by the harness's own recursive-descent parser in two modes: strictly valid => accepted, and evaluated to the parsed AST's reference value when the reference can evaluate it; accepted => leniently valid.",
      EVAL_NOTE + " The grammar-level known findings (see known_findings.json) are excluded by construction, by the counted '/*' feature test, or fall between the strict and the lenient recogniser (counted, not judged).",
      "5.8",
      "cases = (AST, five renderings, document), mutated strings and arbitrary strings (sandwich). Non-trivial positives = >= 2 binary operators of different precedence or >= 2 of the same, or a keyword-spelled name, or a minus adjacent to a name; negatives: every mutated string; distinct by text.")
 prop("C09", True,
      "property-based testing (rapid): abstract documents serialised under generated choices, parsed by ReadXml and walked in parallel with the model; targeted malformations must return an error",
-     "Generated search: abstract documents are rendered as XML text under drawn serialisation choices (prefixes, default namespace with undeclaration and rebinding, declaration order, quote style, character/entity references, CDATA splits and empty CDATA, XML declaration with UTF-8 and five 8-bit/ASCII charsets encoded with x/text/charmap, DOCTYPE, prolog/epilog comments and PIs, top-level white space, empty-tag forms); the cursor tree must equal the model (elements, attributes without declarations, merged text, comments, PIs, one namespace node per in-scope binding incl. xml, each owned by its element). Eight families of malformation (mismatched/missing end tag, truncation, undefined entity, invalid character/encoding, unquoted attribute, unknown charset, doubled '<') must yield a non-nil error.",
+     "Generated search: abstract documents are rendered as XML text under drawn serialisation choices (prefixes, default namespace with undeclaration and rebinding, declaration order, quote style, character/entity references, text split into up to four plain/CDATA pieces with empty CDATA sections before, between and after them, XML declaration with UTF-8 and five 8-bit/ASCII charsets encoded with x/text/charmap, DOCTYPE, prolog/epilog comments and PIs, top-level white space, empty-tag forms); the cursor tree must equal the model (elements, attributes without declarations, merged text, comments, PIs, one namespace node per in-scope binding incl. xml, each owned by its element). Eight families of malformation (mismatched/missing end tag, truncation, undefined entity, invalid character/encoding, unquoted attribute, unknown charset, doubled '<') must yield a non-nil error.",
      "Inputs stay inside what encoding/xml is documented to handle (no internal DTD subset, no literal tab/newline in attribute values, no unbound prefixes). Only error classes encoding/xml detects are demanded.",
      "5.9",
      "cases = (abstract document, serialisation) and malformed byte strings. Non-trivial = the document declares a prefix or default namespace and its serialisation uses at least one of CDATA, a reference, a non-UTF-8 encoding, an XML declaration, a DOCTYPE, a prolog/epilog node, default-namespace undeclaration, or overrides an inherited prefix; distinct by the serialised bytes.")
 prop("C11", True,
      "property-based testing (rapid): differential under generated binding environments, prefix-renaming metamorphic relation, instrumented user functions, unbound-reference errors",
-     "Generated search: binding environments (aliases, prefixes colliding with the document's, prefixes spelling axis names, namespaced variables reachable through two prefixes) x expressions with prefixed name tests, variables and calls are compared with the reference given the same environment; consistently renaming query prefixes and rebuilding the document with different prefixes must not change results; $v must return exactly the bound value (type, content, order) for all four types; an instrumented user function - also when registered under a builtin's name - must be called once per context node with the evaluated arguments in order, Context.Result() the one-node node-set and ContextPosition() the 0-based index; evaluated references to unbound prefixes, variables and functions must fail.",
+     "Generated search: binding environments (aliases, prefixes colliding with the document's, prefixes spelling axis names, namespaced variables reachable through two prefixes) x expressions with prefixed name tests, variables and calls are compared with the reference given the same environment; consistently renaming query prefixes and rebuilding the document with different prefixes must not change results; $v must return exactly the bound value (type, content, order) for all four types; an instrumented user function - also when registered under a builtin's name - must be called once per context node with the evaluated arguments in order, Context.Result() the one-node node-set and ContextPosition() the 0-based index; evaluated references to unbound prefixes, variables and functions must fail - also near misses: a core function's local name behind a bound prefix, a function or variable bound under another expanded name than the one referenced.",
      EVAL_NOTE, "5.11",
      "cases = (environment, expression, document). Non-trivial = a prefixed name test or namespaced variable is used (diff), every renaming case, every typed variable case, functions that are namespaced or shadow a builtin, every unbound-reference form; distinct by (expression, environment, document).")
 prop("C12", True,
@@ -94,8 +94,8 @@ prop("C12", True,
      EVAL_NOTE, "5.12",
      "cases = (document, context node, call). Non-trivial = context node is not a no-namespace element, or the result is a {uri}local name, or an error is required; for lang: every (declared tag, queried tag, context kind) relation; distinct by those tuples.")
 prop("C13", True,
-     "stateful property-based testing (rapid): generated histories of Exec/re-Exec/sub-slice/rebuild/Unmarshal over shared trees, compiled expressions, binding maps and aliased slices, with snapshot invariants after every step",
-     "Generated search: histories of 4-25 operations over one document, 3-6 reused compiled expressions (unions, paths, self steps and predicates over $v/$w, absolute paths inside predicates that depend on variables, prefixed variables and name tests) and bindings that vary between the operations (two namespace maps with the prefixes swapped, two sets of variable values, a prefix bound for one query only; passed either as caller-owned maps or through the With* option functions only); results are held as caller slices, sub-sliced with spare capacity, bound again as $v and $w (also the same slice twice). After every step the harness compares a deep snapshot of the tree (pointer identity, Pos, kind, names, values, list sizes, parents), every held slice including its backing array up to cap, and the binding maps; re-executions and freshly rebuilt expressions must reproduce the recorded result exactly, a namespaced variable must have the value bound under the query's own bindings, and a prefix bound only for an earlier query must be unbound.",
+     "stateful property-based testing (rapid): generated histories of Exec/re-Exec/sub-slice/rebuild/Unmarshal/caller-side edits over shared trees (two documents), compiled expressions, binding maps and aliased slices, with snapshot invariants after every step",
+     "Generated search: histories of 4-25 operations over one or two documents (the second one of the same shape with other values, or unrelated), 3-6 reused compiled expressions (unions, paths, self steps and predicates over $v/$w, absolute paths inside predicates that depend on variables, prefixed variables and name tests) and bindings that vary between the operations (two namespace maps with the prefixes swapped, two sets of variable values, a prefix bound for one query only; passed either as caller-owned maps or through the With* option functions only); results are held as caller slices, sub-sliced with spare capacity, bound again as $v and $w (also the same slice twice). After every step the harness compares a deep snapshot of the tree (pointer identity, Pos, kind, names, values, list sizes, parents), every held slice including its backing array up to cap, and the binding maps; re-executions and freshly rebuilt expressions must reproduce the recorded result exactly, a namespaced variable must have the value bound under the query's own bindings, and a prefix bound only for an earlier query must be unbound. The caller also edits result slices it holds (reverse, in-place filter, overwrite): later queries must not notice; and Unmarshal into four distinct struct types that share their name and field names must fill each from its own tags whatever was unmarshaled before.",
      "Results are compared by value and node identity, not by slice identity (returning the caller's slice unchanged is allowed).",
      "5.13",
      "cases = histories. Non-trivial = the history re-executes an earlier triple after other queries ran and some query bound a held slice as $v/$w; distinct by (expressions, operations, document).")
@@ -118,8 +118,8 @@ prop("C18", True,
      "cases = (document, start node, relative expression) and (document, P, R[, f]). Non-trivial = start node is not an element or an axis leaves its subtree; composition: P selects >= 2 nodes and R carries a predicate; distinct by (start kind and shape, expression) resp. (P/R text, document).")
 
 prop("C14", True,
-     "property-based stress testing (rapid) under the Go race detector: generated concurrent Exec programs on shared tree/expressions/bindings vs. their serial results; race-built CLI -c N vs. per-file blocks",
-     "Generated search: one document, 2-6 compiled expressions (weighted toward unions, paths and predicates over a shared node-set variable bound in caller order), one shared set of binding maps; 2-16 goroutines released by a barrier each run a drawn program of Exec calls for 1-4 rounds (half of the cases on freshly built expressions that were never executed serially; the expression pool calls every builtin with differing arguments); every concurrent result must equal the serial result computed beforehand, and the test binary is built with -race (GORACE=halt_on_error: the first report ends the shard and the running case becomes the replay file). CLI: the race-built command runs over generated trees of 10-60 XML/JSON/HTML files (some malformed) plus 2-5 files whose output block is tens of kilobytes, with -c 2/4/16; stdout must be a sequence of exactly the per-file blocks (each obtained by running the tool on that file alone), intact and contiguous, in any order.",
+     "property-based stress testing (rapid) under the Go race detector: generated concurrent Exec programs on shared tree/expressions/bindings vs. their serial results; concurrent Unmarshal into struct types nobody used before; race-built CLI -c N vs. per-file blocks",
+     "Generated search: one document, 2-6 compiled expressions (weighted toward unions, paths and predicates over a shared node-set variable bound in caller order), one shared set of binding maps; 2-16 goroutines released by a barrier each run a drawn program of Exec calls for 1-4 rounds (half of the cases on freshly built expressions that were never executed serially; the expression pool calls every builtin with differing arguments); every concurrent result must equal the serial result computed beforehand; 2-16 goroutines Unmarshal the same nodes into a struct type created for the case (reflect.StructOf, 1-9 tagged fields, so anything kept per type is cold) and must get what the serial calls made afterwards get, and the test binary is built with -race (GORACE=halt_on_error: the first report ends the shard and the running case becomes the replay file). CLI: the race-built command runs over generated trees of 10-60 XML/JSON/HTML files (some malformed) plus 2-5 files whose output block is tens of kilobytes, with -c 2/4/16; stdout must be a sequence of exactly the per-file blocks (each obtained by running the tool on that file alone), intact and contiguous, in any order.",
      "Coverage of interleavings is probabilistic: this family does not own the Go scheduler. The race detector flags unsynchronised conflicting accesses that execute in a run whether or not the bad interleaving happens. A failing schedule is not replayable as such; the replay re-runs the case 100 times under -race.",
      "5.14",
      "cases = concurrent programs (document, expressions, shared $v, goroutines x operations x rounds) and CLI file trees. Non-trivial = >= 2 goroutines execute an expression over the shared node-set variable of >= 2 nodes; CLI: >= 8 files with -a or -m (multi-line blocks); distinct by (expressions, shared variable, goroutine count, document) resp. (flags, tree).")
@@ -137,7 +137,7 @@ prop("C19", True,
      "cases = (document, select query, target type) and (unsupported target, result). Non-trivial = the target shape has a pointer, a nested struct or a slice of structs/pointers; every unsupported kind; distinct by (type shape, select).")
 prop("C20", True,
      "property-based testing (rapid) of the built command: generated file trees x flag sets x expressions; expected stdout derived through the library API in-process; -m records re-parsed and compared with the selected subtree",
-     "Generated search: temp trees of 1-6 files (XML from the serialiser, JSON, tag soup; nested directories; odd or missing extensions; malformed files; dangling symlinks; missing arguments; stdin) x flags -a -m -n -r -u -t -s -v -c 1 x 32 expressions (node-set, string, number, boolean results, every node kind, namespaces and variables from -s/-v); stdout must equal, byte for byte, the records derived through the library for each processed file in walk order (nothing for empty node-sets, first node or one record per node with -a, 'path: ' prefix unless -n/stdin); with -m every selected node yields one line that parses with ReadXml to a tree equal to the selected subtree (expanded names, attributes, text, comments, PIs); every unreadable/unparsable/untyped input must be named on stderr and must not disturb the other files' output.",
+     "Generated search: temp trees of 1-6 files (XML from the serialiser, JSON, tag soup; nested directories; odd or missing extensions; malformed files; dangling symlinks; missing arguments; stdin) x flags -a -m -n -r -u -t -s -v -e -c 1 in drawn order x 34 expressions; file and directory arguments also spelled with './', doubled or trailing slashes and '..' segments (node-set, string, number, boolean results, every node kind, namespaces and variables from -s/-v); stdout must equal, byte for byte, the records derived through the library for each processed file in walk order (nothing for empty node-sets, first node or one record per node with -a, 'path: ' prefix unless -n/stdin, where path is the path the tool was told or its cleaned form); with -m every selected node yields one line that parses with ReadXml to a tree equal to the selected subtree (expanded names, attributes, text, comments, PIs); every unreadable/unparsable/untyped input must be named on stderr and must not disturb the other files' output.",
      "The binary is rebuilt from /repo for every run. Attribute/namespace records (CLI's own PI notation) and -m over JSON/HTML trees are only checked for shape/no crash. Tests run as root, so unreadable files are simulated by dangling symlinks and missing paths.",
      "5.20",
      "cases = (file tree, flags, expression). Non-trivial = >= 2 files; distinct by (argv, file names and sizes).")
